@@ -474,11 +474,15 @@ def rule_reset(ctx):
                     uses = any(isinstance(x, ast.Attribute) and x.attr == attr and
                                isinstance(x.value, ast.Name) and x.value.id == "self"
                                for x in ast.walk(st))
-                    calls_self = any(isinstance(x, ast.Call) and isinstance(x.func, ast.Attribute)
-                                     and isinstance(x.func.value, ast.Name) and x.func.value.id == "self"
-                                     and x.func.attr != attr for x in ast.walk(st))
-                    if (uses or calls_self) and first_use is None and not isinstance(st, ast.Expr) \
-                            or (uses and first_use is None):
+                    calls_self = False
+                    for x in ast.walk(st):
+                        if isinstance(x, ast.Call) and isinstance(x.func, ast.Attribute) and \
+                                isinstance(x.func.value, ast.Name) and x.func.value.id == "self":
+                            for c in ctx.r.resolve_call(entry, x).callees:
+                                t = ctx.effects.transitive(c)
+                                if attr in (t["read"] | t["write"] | t["mutate"]):
+                                    calls_self = True
+                    if (uses or calls_self) and first_use is None:
                         first_use = i
                 if reset_at is not None and (first_use is None or reset_at < first_use):
                     r.ok(key, C.loc(entry, entry.node.body[reset_at]), "re-created at the start of every search")
